@@ -61,9 +61,9 @@ def step (s : St) : List String → St × List String
       match e.toInt?, d.toInt? with
       | some en, some dm =>
           if dm < 1 ∨ en ≥ 16777216 then (s, ["fn refused"]) else
-          -- any starting guess gives the same answer (C02_quantvals_terminates_correct); a float guess keeps the run short
+          -- any starting guess gives the same answer (C02_quantvals_terminates_correct); a float guess keeps the run short (the inner loop alone needs dim+1 rounds of fuel)
           let g : Int := (Float.floor (Float.pow (Float.ofInt en) (1.0 / Float.ofInt dm))).toInt64.toInt
-          (s, ["fn " ++ (match (Vorbis.Generated.Funcs.book_maptype1_quantvals.run en g dm 200).val? with | some r => toString r | none => "fuel")])
+          (s, ["fn " ++ (match (Vorbis.Generated.Funcs.book_maptype1_quantvals.run en g dm (dm.toNat + 400)).val? with | some r => toString r | none => "fuel")])
       | _, _ => (s, ["bad-op fn"])
   | ["init"] =>
       if !s.have_ ∨ s.dsp.isSome then (s, ["skipped init"]) else
